@@ -164,15 +164,18 @@ class World:
         for d in (self.work, self.home, self.tmp):
             os.makedirs(d)
         self.nruns = 0
+        self.put_paths = set()  # files laid out by the harness (inputs, configs): never mistaken for reports when -o is their directory
 
-    def put(self, rel, data, mode=None):
+    def put(self, rel, data, mode=None, mtime=None):
         path = os.path.join(self.work, rel)
         os.makedirs(os.path.dirname(path), exist_ok=True)
         with open(path, "wb") as fh:
             fh.write(data if isinstance(data, bytes) else data.encode("utf-8"))
-        os.utime(path, ns=(1_600_000_000 * 10**9, 1_600_000_000 * 10**9))
+        stamp = (mtime if mtime is not None else 1_600_000_000) * 10**9
+        os.utime(path, ns=(stamp, stamp))
         if mode is not None:
             os.chmod(path, mode)
+        self.put_paths.add(os.path.realpath(path))
         return path
 
     def cleanup(self):
@@ -232,6 +235,14 @@ def host_env(host, opts, w):
             env[k] = host[k]
     if host.get("profiler"):
         env["RP2_ENABLE_PROFILER"] = "1"
+    if host.get("user"):
+        env["USER"] = env["LOGNAME"] = env["USERNAME"] = host["user"]
+    if host.get("hostname"):
+        env["HOSTNAME"] = host["hostname"]
+    if host.get("columns"):
+        env["COLUMNS"] = host["columns"]
+        env["LINES"] = "24"
+        env["TERM"] = "xterm-256color"
     for k, v in (opts.get("env") or {}).items():
         env[k] = v
     return env
@@ -249,6 +260,8 @@ def run(w, world_files, opts, host=None, faults=None, crash_at=None, dump=False,
     opts = dict(opts)
     if opts.get("outdir") == "ABS":
         opts["outdir"] = os.path.join(w.world, "abs out")
+    elif opts.get("outdir") == "INPUTDIR":
+        opts["outdir"] = (opts.get("files_in") or "./").rstrip("/") or "."
     if src:
         host["src"] = src
     src_root = host.get("src") or DEFAULT_SRC
@@ -308,7 +321,8 @@ def run(w, world_files, opts, host=None, faults=None, crash_at=None, dump=False,
     t0 = time.monotonic()
     timed_out = False
     with open(os.path.join(rundir, "stdout"), "wb") as so, open(os.path.join(rundir, "stderr"), "wb") as se:
-        proc = subprocess.Popen(cmd, cwd=cwd, env=env, stdin=subprocess.DEVNULL, stdout=so, stderr=se, start_new_session=True)  # pylint: disable=consider-using-with
+        proc = subprocess.Popen(cmd, cwd=cwd, env=env, stdin=subprocess.DEVNULL, stdout=so, stderr=se, start_new_session=True,
+                                umask=host["umask"] if host.get("umask") is not None else -1)  # pylint: disable=consider-using-with
         try:
             rc = proc.wait(timeout=RUN_TIMEOUT)
         except subprocess.TimeoutExpired:
@@ -357,7 +371,7 @@ def run(w, world_files, opts, host=None, faults=None, crash_at=None, dump=False,
     if os.path.isdir(out_real):
         for name in sorted(os.listdir(out_real)):
             p = os.path.join(out_real, name)
-            if os.path.isfile(p) and name.endswith(".ods"):
+            if os.path.isfile(p) and name.endswith(".ods") and os.path.realpath(p) not in w.put_paths:
                 reports[name] = inspect_report(p, keep=keep_content)
     res["reports"] = reports
     res["digest"] = digest(res, w)
